@@ -17,3 +17,4 @@ def run(rep):
     cr.rule_fold(rep)
     mr.rule_keyword_types(rep, "C10.types")
     mr.rule_dialect_triple(rep, "C10.triple")
+    cr.rule_input(rep, "C10.isolation")
